@@ -26,6 +26,7 @@ GenStep ==
     \/ \E k \in TimeSteps : DOMAIN agg # {} /\ Advance(k) /\ UNCHANGED cnt /\ Rec("Advance", [k |-> k])
     \/ \E L \in SUBSET LateSet : CleanupTick(L) /\ UNCHANGED cnt /\ Rec("CleanupTick", [x |-> 0])
     \/ Faults /\ DOMAIN agg # {} /\ StoreDown /\ UNCHANGED cnt /\ Rec("StoreDown", [x |-> 0])
+    \/ cnt.rst < MaxRestart /\ (DOMAIN agg # {} \/ DOMAIN db # {}) /\ Restart /\ Bump("rst") /\ Rec("Restart", [x |-> 0])
 
 \* One successor only, so that the behaviour is printed once (TLC's simulator evaluates every successor).
 GenFinish == Len(hist) = GenDepth /\ ~done /\ done' = TRUE /\ PrintT(<<"SCN", ToJson(hist)>>) /\ UNCHANGED <<mcvars, hist>>
